@@ -333,6 +333,7 @@ func runC03(p *Prog, r *Report, tier string) {
 
 	checkInfoElementImmutable(p, r, "R-OWNER.info-element")
 	checkSpecifierFreshness(p, r, "R-EXACT.field-specifier")
+	checkRecordLoopExits(p, r, "R-EXACT.record-loop")
 	// (7) the decoded set length bounds the set body
 	var hdrDecode *ssa.Call
 	eachInstr(dp, func(in ssa.Instruction) {
@@ -813,5 +814,62 @@ func checkSpecifierFreshness(p *Prog, r *Report, rule string) {
 	})
 	if n < 4 {
 		r.Undecided(rule, "anchor: variable arguments of the registry lookup / placeholder constructor", p.pos(fr.Pos()), fmt.Sprintf("only %d found", n))
+	}
+}
+
+// checkRecordLoopExits: the loop that decodes data records while bytes remain is left successfully only through its
+// own condition (no bytes left): every other edge out of the loop leads to error returns only. A 'break' / early
+// success return inside the body leaves received records undecoded (e.g. an over-eager padding heuristic).
+func checkRecordLoopExits(p *Prog, r *Report, rule string) {
+	f := p.Fn("(*pkg/collector.CollectingProcess).decodeDataSet")
+	if f == nil {
+		r.Undecided(rule, "anchor: decodeDataSet", "pkg/collector/process.go", "not found")
+		return
+	}
+	n := 0
+	for _, hb := range f.Blocks {
+		i := ifOf(hb)
+		if i == nil {
+			continue
+		}
+		bo, ok := i.Cond.(*ssa.BinOp)
+		if !ok {
+			continue
+		}
+		_, isLen := isBufLen(bo.X)
+		z, isZero := constInt(bo.Y)
+		if !isLen || !isZero || z != 0 || (bo.Op != token.GTR && bo.Op != token.NEQ) {
+			continue
+		}
+		isLoop := false
+		for _, pr := range hb.Preds {
+			if hb.Dominates(pr) {
+				isLoop = true
+			}
+		}
+		if !isLoop {
+			continue
+		}
+		n++
+		inLoopBlk := func(b *ssa.BasicBlock) bool { return hb.Dominates(b) && reachableBlock(b, hb) }
+		bad := ""
+		for _, b := range f.Blocks {
+			if !inLoopBlk(b) {
+				continue
+			}
+			for si, s := range b.Succs {
+				if inLoopBlk(s) || (b == hb && si == 1) {
+					continue
+				}
+				if !onlyErrorReturnsFrom(s) {
+					bad = p.instrPos(b.Instrs[len(b.Instrs)-1])
+				}
+			}
+		}
+		r.Check(bad == "", rule, fnKey(f)+": record loop left only when no bytes remain (or with an error)", p.instrPos(i), "the loop condition is the only successful exit",
+			"the record loop has another successful exit at "+bad+": bytes that encode further records (for example trailing records that happen to be all zero) are left undecoded and the records are lost", true)
+	}
+	if n == 0 {
+		r.Undecided(rule, fnKey(f)+": loop over the remaining bytes", p.pos(f.Pos()), "no loop conditioned on buffer.Len() > 0 found")
 	}
 }
